@@ -5,14 +5,21 @@
     (RevCache.Get <> nil) and [nexthop] are arbitrary functions.  Two hypotheses
     are made where needed and nowhere else:
       [comb_ok]  every path the combinator returns lists at least one interface,
-                 starts at the source and ends at the destination — these are
-                 C28's theorems about the combinator;
+                 starts at the source and ends at the destination.  This is NOT
+                 true of the combinator for arbitrary validated segments (an inner
+                 AS entry without ingress interface, Proofs/CombinatorEndpoints.v
+                 [zero_ingress_witness]); it is proved for the combinator model on
+                 segments of the shape beaconing produces ([CombSpec.wf_input],
+                 [combine_endpoints]) and C30_endpoints_combinator below states the
+                 end points with [combine := Combinator.combine] under that
+                 assumption on the fetched segments instead of [comb_ok];
       [fetch_ok] the Fetcher returns only segments that answer one of the
                  requests (the Fetcher contract, recorded in the trusted base). *)
 From Coq Require Import List NArith ZArith Bool.
-From Scion Require Import Lib.Check Model.Pather Proofs.Pather.
+From Scion Require Import Lib.Check Model.Segment Model.CombSpec Model.Combinator Model.Pather.
+From Scion Require Import Proofs.Pather Proofs.PatherComb.
 Import ListNotations.
-Import Pather.
+Import Scion.Model.Pather.Pather.
 Local Open Scope N_scope.
 
 (** Every returned path starts at the local AS and ends at the requested ISD-AS;
@@ -29,6 +36,34 @@ Theorem C30_endpoints : forall fetch combine rev_active nexthop sp now dst l r,
                 (sg_type s = Core \/ (sg_type s = Up /\ isd dst = isd (sp_local sp)))).
 Proof. exact endpoints. Qed.
 Print Assumptions C30_endpoints.
+
+(** The same with the combinator model plugged in ([comb_inst]: Combinator.combine
+    on the contents [body id] of the fetched segments, ISD-AS numbers translated by
+    [enc]/[dec]) in place of the hypothesis on [combine]: it suffices that the
+    fetched segments are beaconing-shaped ([shaped] = CombSpec.wf_input). *)
+Theorem C30_endpoints_combinator : forall enc dec body fetch rev_active nexthop sp now dst l r,
+  (forall x, dec (enc x) = x) ->
+  fetched_sat fetch (shaped body) -> fetch_ok fetch -> wildcard (sp_local sp) = false ->
+  get_paths fetch (comb_inst enc dec body) rev_active nexthop sp now dst = GOk l -> In r l ->
+  r_src r = sp_local sp
+  /\ (wildcard dst = false -> r_dst r = dst)
+  /\ (wildcard dst = true ->
+      isd (r_dst r) = isd dst /\
+      exists s, In s (fst (fetch (requests sp dst))) /\ sg_first s = r_dst r /\
+                (sg_type s = Core \/ (sg_type s = Up /\ isd dst = isd (sp_local sp)))).
+Proof. intros enc dec body fetch rv nh sp now dst l r De. now apply endpoints_combinator. Qed.
+Print Assumptions C30_endpoints_combinator.
+
+(** Wildcard destinations end at a core AS of the requested ISD, given that up
+    segments start at and core segments connect core ASes ([segs_core_ok] for the
+    predicate [is_core]). *)
+Theorem C30_wildcard_core : forall fetch combine rev_active nexthop is_core P sp now dst l r,
+  comb_ok_on combine P (sp_local sp) -> fetched_sat fetch P -> fetch_ok fetch ->
+  segs_core_ok fetch is_core -> wildcard (sp_local sp) = false ->
+  get_paths fetch combine rev_active nexthop sp now dst = GOk l -> In r l ->
+  wildcard dst = true -> isd (r_dst r) = isd dst /\ is_core (r_dst r) = true.
+Proof. exact wildcard_core. Qed.
+Print Assumptions C30_wildcard_core.
 
 (** No returned path has expired. *)
 Theorem C30_live : forall fetch combine rev_active nexthop sp now dst l r,
@@ -63,6 +98,21 @@ Theorem C30_split_table : forall sp dst,
 Proof. exact split_eq_spec. Qed.
 Print Assumptions C30_split_table.
 
+(** What the table means, stated without it: with an inspector the requests form
+    a chain of at most three segments from the local AS to the destination — each
+    request starts where the previous one ended, at most one segment of a kind,
+    up before core before down —, an up segment is requested iff the source is
+    not core, a down segment iff the destination is neither core nor a wildcard. *)
+Theorem C30_split_chain : forall sp insp dst reqs,
+  sp_insp sp = Some insp -> isd (sp_local sp) <> 0 -> isd dst <> 0 ->
+  split sp dst = SplitOk reqs ->
+  reqs <> [] /\ chain_from (sp_local sp) 0 reqs dst
+  /\ has_type Up reqs = negb (sp_core sp)
+  /\ has_type Down reqs = negb (wildcard dst || mem_ia dst (i_cores insp))
+  /\ (length reqs <= 3)%nat.
+Proof. exact split_chain. Qed.
+Print Assumptions C30_split_chain.
+
 (** The finite part of the table, row by row, for all 2^7 kinds. *)
 Theorem C30_split_table_rows : forall sc dc same wild hs ss sd,
   let k := mkkinds sc dc same wild hs ss sd in
@@ -88,11 +138,17 @@ Theorem C30_no_panic : forall fetch combine rev_active nexthop sp now dst,
 Proof. exact no_panic. Qed.
 Print Assumptions C30_no_panic.
 
+Theorem C30_no_panic_combinator : forall enc dec body fetch rev_active nexthop sp now dst,
+  (forall x, dec (enc x) = x) -> fetched_sat fetch (shaped body) ->
+  get_paths fetch (comb_inst enc dec body) rev_active nexthop sp now dst <> GPanic.
+Proof. intros. now apply no_panic_combinator. Qed.
+Print Assumptions C30_no_panic_combinator.
+
 (** The oracle of the correspondence check holds on the model for every case
     whose shipped combinator output is well-formed. *)
 Theorem C30_oracle_holds_on_model : forall e,
   isd (sp_local (e_sp e)) <> 0 -> wildcard (sp_local (e_sp e)) = false ->
-  comb_wf (sp_local (e_sp e)) (e_comb e) ->
+  comb_wf (sp_local (e_sp e)) (e_comb e) -> pool_core_ok e ->
   oracle e (requests (e_sp e) (e_dst e)) (res_ok (model_paths e)) (res_paths (model_paths e)) = true.
 Proof. exact oracle_model. Qed.
 Print Assumptions C30_oracle_holds_on_model.
@@ -102,11 +158,13 @@ Print Assumptions C30_oracle_holds_on_model.
     candidate; exactly the live unrevoked path is returned. *)
 Example C30_example :
   let sp := mksplit (1, 111) false (Some (mkinsp [(1, 110); (2, 210)] false)) in
-  let pool := [mkseg Up (1, 110) (1, 111); mkseg Down (1, 110) (1, 112); mkseg Core (2, 210) (1, 110)] in
+  let pool := [mkseg Up (1, 110) (1, 111) 0; mkseg Down (1, 110) (1, 112) 1;
+               mkseg Core (2, 210) (1, 110) 2] in
   let comb := [((1, 112), [mkcpath [((1, 111), 1); ((1, 110), 11); ((1, 110), 12); ((1, 112), 1)] 500;
                            mkcpath [((1, 111), 2); ((1, 110), 13); ((1, 110), 12); ((1, 112), 1)] 700;
                            mkcpath [((1, 111), 1); ((1, 110), 11); ((1, 110), 12); ((1, 112), 1)] (-5)])] in
-  let e := mkenv sp (1, 112) pool false comb [(((1, 110), 13), 60%Z); (((1, 110), 11), (-60)%Z)] [] in
+  let e := mkenv sp (1, 112) pool false comb [(((1, 110), 13), 60%Z); (((1, 110), 11), (-60)%Z)] []
+                 [(1, 110); (2, 210)] true in
   requests sp (1, 112) = [mkreq Up (1, 111) (1, 110); mkreq Down (1, 110) (1, 112)]
   /\ model_paths e
      = GOk [mkrpath (1, 111) (1, 112) [((1, 111), 1); ((1, 110), 11); ((1, 110), 12); ((1, 112), 1)] 500]
